@@ -473,6 +473,60 @@ theorem pin_pass_limit (i : Idx) (cc : Nat) (hr : isWriteCmd cc = false) (hp : n
   simp [TPM_NT_PIN_PASS, TPM_NT_PIN_FAIL] at h
   exact h
 
+/-! ### NV_Certify -/
+
+/-- NV_Certify and NV_Read are the same kind of command for the availability of the index authValue -/
+theorem certify_enter_eq_read (s : St) (a h : Nat) (hw1 : isWriteCmd 0x184 = false) (hw2 : isWriteCmd 0x14E = false) :
+    enter s a h 0x184 = enter s a h 0x14E := by
+  unfold enter indexAuthAvail
+  simp [hw1, hw2]
+
+/-- **what NV_Certify attests is what NV_Read returns**: whenever both succeed (same authorization, size, offset) the bytes
+    are the same, and the state after them is the same -/
+theorem certify_attests_read_data (s : St) (a h size off : Nat) (hw1 : isWriteCmd 0x184 = false) (hw2 : isWriteCmd 0x14E = false)
+    (hc : (nvCertify s a h size off).2.1 = 0) (hr : (nvRead s a h size off).2.1 = 0) :
+    (nvCertify s a h size off).2.2 = (nvRead s a h size off).2.2 ∧ (nvCertify s a h size off).1 = (nvRead s a h size off).1 := by
+  unfold nvCertify nvRead at *
+  rw [certify_enter_eq_read s a h hw1 hw2] at hc ⊢
+  cases he : enter s a h 0x14E with
+  | error rc => simp [he] at hc hr ⊢
+  | ok p =>
+    obtain ⟨s', i⟩ := p
+    simp only [he] at hc hr ⊢
+    by_cases h1 : readAccess a i ≠ 0
+    · simp [h1] at hc
+    · simp only [h1, if_false] at hc hr ⊢
+      by_cases h2 : size + off > i.size
+      · simp [h2, TPM_RC_NV_RANGE] at hc
+      · by_cases h3 : size > MAX_NV_BUFFER_SIZE
+        · simp [h2, h3, TPM_RC_VALUE, RC_NV_Certify_size] at hc
+        · by_cases h4 : off > i.size
+          · omega
+          · by_cases h5 : size > i.size - off
+            · omega
+            · simp [h2, h3, h4, h5]
+
+/-- a refused NV_Certify attests nothing (the PIN bookkeeping of a used index authValue is the only thing that may have moved) -/
+theorem certify_refused (s : St) (a h size off : Nat) (hc : (nvCertify s a h size off).2.1 ≠ 0) :
+    (nvCertify s a h size off).2.2 = [] := by
+  unfold nvCertify at *
+  cases he : enter s a h 0x184 with
+  | error rc => simp [he]
+  | ok p =>
+    obtain ⟨s', i⟩ := p
+    simp only [he] at hc ⊢
+    by_cases h1 : readAccess a i ≠ 0
+    · simp [h1]
+    · simp only [h1, if_false] at hc ⊢
+      by_cases h2 : size + off > i.size
+      · simp [h2]
+      · by_cases h3 : size > MAX_NV_BUFFER_SIZE
+        · simp [h2, h3]
+        · simp [h2, h3] at hc
+
+example : isWriteCmd 0x184 = false ∧ isWriteCmd 0x14E = false := by decide
+
+
 /-! ### Non-vacuity -/
 example : defineChecks RH_OWNER [] { handle := 0x01500000, nameAlg := 0x000B, attrs := 0x02020002 + 16, policy := [], size := 8 } = none := by decide
 
